@@ -622,12 +622,21 @@ class Ctx(object):
         self.set_list_arr(ref, ety, inner)
         return ref
 
-    def assume_ref_typed(self, v):
+    def is_entry_map(self, key):
+        return key in self.heap0_consts and self.heap.get(key) is not None and self.heap[key].eq(self.heap0_consts[key])
+
+    def assume_ref_typed(self, v, key=None):
+        """A reference read from the heap points to an allocated object.  Read from a map that is still the ENTRY heap
+        constant (``key``), it points to an object allocated at entry: the entry heap is closed under dereferencing."""
         if isinstance(v, RefV):
+            bound = self.wm_now()
+            if key is not None and key in self.heap0_consts and self.heap.get(key) is not None \
+                    and self.heap[key].eq(self.heap0_consts[key]):
+                bound = self.wm_entry
             if v.ty.kind == "opt":
-                self.assume(z3.And(v.term >= 0, v.term < self.wm_now()))
+                self.assume(z3.And(v.term >= 0, v.term < bound))
             else:
-                self.assume(z3.And(v.term > 0, v.term < self.wm_now()))
+                self.assume(z3.And(v.term > 0, v.term < bound))
             if v.ty.base.kind == "list":
                 self.assume(self.list_len(v) >= 0)
 
